@@ -150,6 +150,11 @@ type State struct {
 	Locks          map[auxKey]lockState
 	SchedTrace     []int8         // thread id of every completed synchronisation event, in global order (thread mode)
 	BlockedNow     *threadBlocked // time.Now() returns the previous reading (harness primitive vclockFreeze)
+	// goroutine mode "pump" (pump.go): goroutines blocked on channel operations keep their frames and are resumed by vpump
+	Parked      [][]*Frame
+	PumpActive  bool
+	PumpFires   int
+	PumpResumes int
 }
 
 func (st *State) top() *Frame { return st.Frames[len(st.Frames)-1] }
@@ -204,6 +209,15 @@ func (st *State) clone() *State {
 		}
 	}
 	n.PendingThreads = append([]FuncV(nil), st.PendingThreads...)
+	if len(st.Parked) > 0 {
+		n.Parked = make([][]*Frame, len(st.Parked))
+		for i, g := range st.Parked {
+			n.Parked[i] = make([]*Frame, len(g))
+			for j, f := range g {
+				n.Parked[i][j] = f.clone()
+			}
+		}
+	}
 	n.undo = append([]undoRec(nil), st.undo...)
 	n.decisions = append([]int(nil), st.decisions...)
 	n.script = append([]int(nil), st.script...)
